@@ -343,7 +343,7 @@ func GenGraph(r *Rand, o GraphOpts) *GraphSpec {
 			// no two nodes with the same (mediaType, bytes): they would be one node
 			dup := false
 			for _, b := range blobs {
-				if gs.Nodes[b].Data == ns.Data && gs.Nodes[b].Repeat == ns.Repeat && (o.OneDigest || gs.Nodes[b].MT == ns.MT) {
+				if gs.Nodes[b].Data == ns.Data && gs.Nodes[b].Repeat == ns.Repeat && (o.OneDigest || o.NoTwins || gs.Nodes[b].MT == ns.MT) {
 					dup = true
 				}
 			}
